@@ -57,6 +57,17 @@ func (w *World) applyByz(a simrt.Action) bool {
 			}
 			id = blocks[int(a.C-1)%len(blocks)].ID
 		}
+		if a.I == "misindexed" {
+			// the validator's own, validly signed vote presented under the index of another validator
+			// (neither index nor address is covered by the signature)
+			other := (idx + 1 + int(a.C)%7) % len(ref.vals)
+			if other == idx {
+				return false
+			}
+			w.pool.AddVote(w.signVote(v, other, h, r, t, id), v.id, true, "misindexed")
+			w.Faults.Inc("byz_vote_misindexed")
+			return true
+		}
 		it := w.pool.AddVote(w.signVote(v, idx, h, r, t, id), v.id, true, "")
 		w.tagSide(a, it, nil)
 		w.Faults.Inc("byz_vote")
